@@ -328,6 +328,7 @@ func runStack(c *fw.Ctx, idx int, count bool) {
 func runCallContract(c *fw.Ctx, count bool) {
 	L := lua.NewState()
 	defer L.Close()
+	Lmain := L
 	idx := 0
 	for _, callee := range []string{"lua", "go", "callable", "lua-params", "lua-locals", "lua-vararg"} {
 		for produced := 0; produced <= 4; produced++ {
@@ -402,95 +403,140 @@ func runCallContract(c *fw.Ctx, count bool) {
 				}
 				for nargs := 0; nargs <= 3; nargs++ {
 					for _, nret := range []int{lua.MultRet, 0, 1, 2, 3, 4, 5, 6} {
-						for _, how := range []string{"Call", "PCall", "CallByParam", "CallByParam-unprotected"} {
-							if fails && (how == "Call" || how == "CallByParam-unprotected") {
-								continue // an unprotected failure propagates as a panic by contract
-							}
-							idx++
-							if !c.Mine(idx) {
-								continue
-							}
-							cs := Case{Kind: "call", Idx: idx, Info: fmt.Sprintf("callee=%s produced=%d fails=%v nargs=%d NRet=%d how=%s", callee, produced, fails, nargs, nret, how)}
-							c.Begin(cs)
-							L.SetTop(0)
-							L.Push(lua.LString("g1"))
-							L.Push(lua.LString("g2"))
-							base := L.GetTop()
-							args := make([]lua.LValue, nargs)
-							for i := range args {
-								args[i] = lua.LNumber(i)
-							}
-							var err error
-							o := gl.Protect(func() error {
-								switch how {
-								case "Call", "PCall":
-									L.Push(fn)
-									for _, a := range args {
-										L.Push(a)
-									}
-									if how == "Call" {
-										L.Call(nargs, nret)
-										return nil
-									}
-									return L.PCall(nargs, nret, nil)
-								case "CallByParam":
-									return L.CallByParam(lua.P{Fn: fn, NRet: nret, Protect: true}, args...)
-								default:
-									return L.CallByParam(lua.P{Fn: fn, NRet: nret, Protect: false}, args...)
+						for _, howFull := range []string{"Call", "PCall", "CallByParam", "CallByParam-unprotected", "PCall/handler", "PCall/failing-handler", "CallByParam/handler", "CallByParam/failing-handler"} {
+							for depth := 0; depth <= 1; depth++ {
+								how, handler := howFull, ""
+								if i := strings.Index(how, "/"); i >= 0 {
+									how, handler = how[:i], how[i+1:]
 								}
-							})
-							err = o.Err
-							bad := ""
-							want := nret
-							if nret == lua.MultRet {
-								want = produced
-							}
-							switch {
-							case o.GoPanic != nil:
-								bad = "Go panic: " + o.PanicStr
-							case fails:
-								if err == nil {
-									bad = "the failing callee did not produce an error"
-								} else if !strings.Contains(err.Error(), "Ecall") {
-									bad = "wrong error: " + err.Error()
-								} else if L.GetTop() != base {
-									bad = fmt.Sprintf("a failed protected call left %d values (arguments or partial results) on the stack", L.GetTop()-base)
+								if fails && (how == "Call" || how == "CallByParam-unprotected") {
+									continue // an unprotected failure propagates as a panic by contract
 								}
-							case err != nil:
-								bad = "error: " + err.Error()
-							case L.GetTop()-base != want:
-								bad = fmt.Sprintf("stack grew by %d, want %d", L.GetTop()-base, want)
-							default:
-								for i := 1; i <= want; i++ {
-									var w lua.LValue = lua.LNil
-									if i <= produced {
-										w = lua.LNumber(499 + i)
-										if callee == "lua-params" || callee == "lua-vararg" {
-											// the i-th argument (arguments are 0, 1, 2), nil when not passed
-											w = lua.LNil
-											if i <= nargs {
-												w = lua.LNumber(i - 1)
+								idx++
+								if !c.Mine(idx) {
+									continue
+								}
+								cs := Case{Kind: "call", Idx: idx, Info: fmt.Sprintf("callee=%s produced=%d fails=%v nargs=%d NRet=%d how=%s handler=%s depth=%d", callee, produced, fails, nargs, nret, how, handler, depth)}
+								c.Begin(cs)
+								var hf *lua.LFunction
+								switch handler {
+								case "handler":
+									hf = Lmain.NewFunction(func(L *lua.LState) int {
+										L.Push(lua.LString("handled:" + L.Get(1).String()))
+										return 1
+									})
+								case "failing-handler":
+									hf = Lmain.NewFunction(func(L *lua.LState) int { L.RaiseError("Ehandler"); return 0 })
+								}
+								exec := func(L *lua.LState) string {
+									L.SetTop(0)
+									L.Push(lua.LString("g1"))
+									L.Push(lua.LString("g2"))
+									base := L.GetTop()
+									args := make([]lua.LValue, nargs)
+									for i := range args {
+										args[i] = lua.LNumber(i)
+									}
+									var err error
+									o := gl.Protect(func() error {
+										switch how {
+										case "Call", "PCall":
+											L.Push(fn)
+											for _, a := range args {
+												L.Push(a)
+											}
+											if how == "Call" {
+												L.Call(nargs, nret)
+												return nil
+											}
+											return L.PCall(nargs, nret, hf)
+										case "CallByParam":
+											return L.CallByParam(lua.P{Fn: fn, NRet: nret, Protect: true, Handler: hf}, args...)
+										default:
+											return L.CallByParam(lua.P{Fn: fn, NRet: nret, Protect: false}, args...)
+										}
+									})
+									err = o.Err
+									bad := ""
+									want := nret
+									if nret == lua.MultRet {
+										want = produced
+									}
+									switch {
+									case o.GoPanic != nil:
+										bad = "Go panic: " + o.PanicStr
+									case fails:
+										if err == nil {
+											bad = "the failing callee did not produce an error"
+										} else if handler != "failing-handler" && !strings.Contains(err.Error(), "Ecall") {
+											bad = "wrong error: " + err.Error()
+										} else if handler == "handler" && !strings.Contains(err.Error(), "handled:") {
+											bad = "the error handler's result is not what the caller received: " + err.Error()
+										} else if L.GetTop() != base {
+											bad = fmt.Sprintf("a failed protected call left %d values (arguments or partial results) on the stack", L.GetTop()-base)
+										}
+									case err != nil:
+										bad = "error: " + err.Error()
+									case L.GetTop()-base != want:
+										bad = fmt.Sprintf("stack grew by %d, want %d", L.GetTop()-base, want)
+									default:
+										for i := 1; i <= want; i++ {
+											var w lua.LValue = lua.LNil
+											if i <= produced {
+												w = lua.LNumber(499 + i)
+												if callee == "lua-params" || callee == "lua-vararg" {
+													// the i-th argument (arguments are 0, 1, 2), nil when not passed
+													w = lua.LNil
+													if i <= nargs {
+														w = lua.LNumber(i - 1)
+													}
+												}
+											}
+											if g := L.Get(base + i); g != w {
+												bad = fmt.Sprintf("result %d is %v, want %v", i, g, w)
 											}
 										}
 									}
-									if g := L.Get(base + i); g != w {
-										bad = fmt.Sprintf("result %d is %v, want %v", i, g, w)
+									if bad == "" && (L.Get(1) != lua.LString("g1") || L.Get(2) != lua.LString("g2")) {
+										bad = "values below the call were disturbed"
+									}
+									if bad == "" {
+										// the activation's list still works: relative indices address it
+										top := L.GetTop()
+										probe := lua.LString("probe")
+										L.Push(probe)
+										if L.GetTop() != top+1 || L.Get(-1) != probe || L.Get(top+1) != probe || L.Get(1) != lua.LString("g1") {
+											bad = fmt.Sprintf("after the call, Push/Get address another part of the stack (top %d -> %d, Get(-1)=%v, Get(1)=%v)", top, L.GetTop(), L.Get(-1), L.Get(1))
+										}
+										L.Pop(1)
+									}
+									return bad
+								}
+								bad := ""
+								if depth == 0 {
+									bad = exec(Lmain)
+								} else {
+									host := Lmain.NewFunction(func(L *lua.LState) int {
+										bad = exec(L)
+										L.SetTop(0)
+										return 0
+									})
+									Lmain.SetTop(0)
+									if o := gl.Protect(func() error { return Lmain.CallByParam(lua.P{Fn: host, NRet: 0, Protect: true}) }); bad == "" && (o.Err != nil || o.GoPanic != nil) {
+										bad = "the host function running the call failed: " + gl.ErrText(o.Err) + o.PanicStr
 									}
 								}
+								if count {
+									c.Count("call_contract_tuples", 1)
+								}
+								if bad != "" {
+									cs.Diff = bad
+									c.Violation("call contract ("+cs.Info+"): "+bad, cs)
+									c.End(false, "")
+									continue
+								}
+								c.End(true, cs.Info)
 							}
-							if bad == "" && (L.Get(1) != lua.LString("g1") || L.Get(2) != lua.LString("g2")) {
-								bad = "values below the call were disturbed"
-							}
-							if count {
-								c.Count("call_contract_tuples", 1)
-							}
-							if bad != "" {
-								cs.Diff = bad
-								c.Violation("call contract ("+cs.Info+"): "+bad, cs)
-								c.End(false, "")
-								continue
-							}
-							c.End(true, cs.Info)
 						}
 					}
 				}
